@@ -211,6 +211,9 @@ def install(I):
             return "<" + type(v).__name__ + ">"
         if hasattr(v, "py_str"):
             return v.py_str(I)
+        if isinstance(v, SInt):
+            from .heap import FStr
+            return FStr([v])          # decimal numeral of a symbolic integer: injective, so equality is integer equality
         if isinstance(v, (Obj, Closure, BoundMethod, ClassRef)):
             return I.to_str(v)
         raise Unsupported(f"str() of symbolic {type(v).__name__}")
